@@ -94,7 +94,7 @@ Print Assumptions C08_refuted.
 
 (* Neither hypothesis of C08_main can be dropped: a failing accepted history that is outside the
    zombie window (ex_dup), one outside the dup window (ex_zombie: RestartProcess on an instance that is
-   about to launch), and one on which w_zombie is the ONLY window flag set (ex_zombie_only). *)
+   about to launch; its flags are zombie and commit). *)
 Theorem C08_dup_needed : exists cs ord evs s, accept (init cs ord) evs = Some s /\
   w_zombie (final_obs cs evs) = false /\ holds_C08 cs evs = false.
 Proof. exact C08_dup_needed_lemma. Qed.
@@ -105,10 +105,14 @@ Theorem C08_zombie_needed : exists cs ord evs s, accept (init cs ord) evs = Some
 Proof. exact C08_zombie_needed_lemma. Qed.
 Print Assumptions C08_zombie_needed.
 
-Theorem C08_zombie_only : exists cs ord evs s, accept (init cs ord) evs = Some s /\
-  windows_of (final_obs cs evs) = [true; false; false; false; false; false; false] /\ holds_C08 cs evs = false.
-Proof. exact C08_zombie_only_lemma. Qed.
-Print Assumptions C08_zombie_only.
+(* The first version of the model also accepted a failing history on which w_zombie was the ONLY flag
+   (ex_zombie_only, a "Pending" write for an old instance long after its creation).  The hardened model
+   (staged creation: NewProcess, Pending, registration, spawn in program order on one thread) rejects it: *)
+Example C08_zombie_only_rejected :
+  accept (init cs_disabled false) ex_zombie_only = None /\
+  fst (accept_prefix (init cs_disabled false) ex_zombie_only 0) = 31%nat /\
+  nth 31 ex_zombie_only (0%N, EResume) = (99%N, EState 100%N SPending).
+Proof. exact ex_zombie_only_rejected. Qed.
 
 (* (kept from the interim statement file) every accepted history keeps the observer's picture, on which
    the monitor is evaluated, in agreement with the model state *)
